@@ -53,6 +53,18 @@ func signumInt(i int64) int {
 	return 0
 }
 
+// cmpInt64 is the three-way order of two int64. The sign of a-b is not: the
+// difference wraps around when the operands are more than 2^63 apart.
+func cmpInt64(a, b int64) int {
+	if a < b {
+		return -1
+	}
+	if a > b {
+		return 1
+	}
+	return 0
+}
+
 func compareFloat(f *SexpFloat, expr Sexp) (int, error) {
 	switch e := expr.(type) {
 	case *SexpInt:
@@ -85,7 +97,7 @@ func compareFloat(f *SexpFloat, expr Sexp) (int, error) {
 func compareInt(i *SexpInt, expr Sexp) (int, error) {
 	switch e := expr.(type) {
 	case *SexpInt:
-		return signumInt(i.Val - e.Val), nil
+		return cmpInt64(i.Val, e.Val), nil
 	case *SexpFloat:
 		return signumFloat(float64(i.Val) - e.Val), nil
 	case *SexpChar:
@@ -95,7 +107,7 @@ func compareInt(i *SexpInt, expr Sexp) (int, error) {
 		ifa := r.Interface()
 		switch z := ifa.(type) {
 		case *int64:
-			return signumInt(i.Val - *z), nil
+			return cmpInt64(i.Val, *z), nil
 		}
 		P("compareInt(): ifa = %v/%T", ifa, ifa)
 		P("compareInt(): r.Elem() = %v/%T", r.Elem(), r.Elem())
